@@ -5,7 +5,7 @@ from ..repo import AnalysisError
 from ..report import Ob, RuleSpec
 from ..astutil import (src, flat_guards, guards, calls_in, call_name, kwarg, const_value,
                        iter_own_nodes, ancestors, is_within)
-from ..cfg import cfg_of, Prov
+from ..cfg import cfg_of, Prov, resolve_local
 from ..translator import TRANSLATORS, dispatch_table, child_kinds
 from .. import variants as V
 
@@ -680,6 +680,46 @@ def r6_stack(repo):
     return obs
 
 
+def r7_boolean_attributes(repo):
+    """Every visitor: a boolean attribute of the visited node (`is_*`, the modifiers) that the visitor reads at all is
+    consulted at least once without being control-dependent on another attribute of the node - otherwise the text does
+    not depend on it on the other branch (a negated type test printed only for plain variables, `final` only without
+    `override`, ...)."""
+    obs = []
+    for lang in LANGS:
+        cls = _cls(repo, lang)
+        for name, m in sorted(cls.methods.items()):
+            if not name.startswith("visit_") or len(m.params) < 2:
+                continue
+            p = m.params[1]
+            reads = {}
+            for n in ast.walk(m.node):
+                if not (isinstance(n, ast.Attribute) and (n.attr.startswith("is_") or n.attr in BOOL_MODIFIERS)):
+                    continue
+                if isinstance(getattr(n, "_parent", None), ast.Call) and n._parent.func is n:
+                    continue      # a method call (is_parameterized()), not an attribute
+                base = n.value
+                while isinstance(base, ast.Attribute):
+                    base = base.value
+                if not (isinstance(base, ast.Name) and base.id == p):
+                    continue
+                dep = []
+                for t, _pol in flat_guards(n):
+                    if any(x is n for x in ast.walk(t)):
+                        continue
+                    tt = resolve_local(m.node, t, n) if isinstance(t, ast.Name) else t
+                    if any(isinstance(x, ast.Name) and x.id == p for x in ast.walk(tt)) and src(n) not in src(tt):
+                        dep.append(src(tt)[:60])
+                reads.setdefault(src(n), []).append((n, dep))
+            for a, sites in sorted(reads.items()):
+                free = [n for n, dep in sites if not dep]
+                obs.append(Ob("C12-R7", "%s:%s:%s-consulted-independently" % (lang, name, a), _w(m, sites[0][0]), bool(free),
+                              "every read of %s in %s.%s happens only under a test of another attribute of the node (%s): on "
+                              "the other branch the emitted text does not depend on it"
+                              % (a, lang, name, sorted({d for _n, dep in sites for d in dep})[:3])))
+    return obs
+
+
 def rules():
     return [
         RuleSpec("C12-R1", "annotation printed iff carried; writer/reader agreement (R1+R2)", 18, r1_r2_annotations),
@@ -687,6 +727,7 @@ def rules():
         RuleSpec("C12-R4", "declaration visitors read every expressible attribute", 24, r4_inventory),
         RuleSpec("C12-R5", "positional assembly follows children() order", 12, r5_offsets),
         RuleSpec("C12-R6", "result-stack discipline of every visitor", 120, r6_stack),
+        RuleSpec("C12-R7", "boolean attributes of the node are consulted independently (all visitors)", 25, r7_boolean_attributes),
     ]
 
 
